@@ -9,6 +9,9 @@ inductive Deferred where
 
 structure Conn where
   c : C := {}
+  /-- the machine of the other object's signal on this connection; what the server sends for one
+      signal is `Frame.other` for the other one -/
+  o : C := {}
   held : Bool := false
   deferred : List Deferred := []
 
@@ -16,6 +19,7 @@ structure St where
   conns : List Conn := []
   subs : List (Nat × Nat) := []      -- global subscriber id ↦ (connection, index in that connection's machine)
   acked : List Nat := []             -- subscribers whose SubscribeID has returned (as seen by the harness)
+  osubs : List (Nat × Nat) := []     -- subscribers of the other object ↦ (connection, index in that connection's `o` machine)
 
 partial def drain (c : C) : C := if c.delivered < c.log.length then drain (deliver c) else c
 
@@ -24,6 +28,16 @@ def settle (k : Conn) : Conn :=
   if k.held then { k with c := drain k.c } else
   let c1 := drain (srvUnregister (srvRegister k.c))
   { k with c := c1 }
+
+def noises (c : C) : Nat → C
+  | 0 => c
+  | n + 1 => noises (noise c) n
+
+/-- an operation on the other object's machine (the lock is free, the connection is not held):
+    it runs to completion; every frame it puts on the connection is `other` for this signal -/
+def otherOp (k : Conn) (f : C → C) : Conn :=
+  let o1 := drain (srvUnregister (srvRegister (f k.o)))
+  { k with o := o1, c := drain (noises k.c (o1.log.length - k.o.log.length)) }
 
 def setConn (st : St) (i : Nat) (k : Conn) : St := { st with conns := st.conns.set i k }
 
@@ -118,8 +132,36 @@ def run (st : St) (args : List String) : St × String :=
       | none => (st, "bad-op")
     | none => (st, "bad-op")
   | ["sg.emit", p] =>
-    let conns := st.conns.map (fun k => { k with c := drain (emit k.c p.toNat!) })
+    let conns := st.conns.map (fun k =>
+      { k with c := drain (emit k.c p.toNat!), o := drain (if k.c.registered then noise k.o else k.o) })
     ({ st with conns := conns }, "ok")
+  | ["sg.oemit", p] =>
+    ({ st with conns := st.conns.map (fun k => otherOp k (fun o => emit o p.toNat!)) }, "ok")
+  | ["sg.osub", k] =>
+    match st.conns[k.toNat!]? with
+    | some c =>
+      let si := c.o.subs.length
+      ({ setConn st k.toNat! (otherOp c (fun o => enter (attach o) si)) with osubs := st.osubs ++ [(k.toNat!, si)] },
+        s!"acked {st.osubs.length}")
+    | none => (st, "bad-op")
+  | ["sg.ocancel", g] =>
+    match st.osubs[g.toNat!]? with
+    | some (ci, si) =>
+      match st.conns[ci]? with
+      | some c =>
+        let k1 := otherOp c (fun o => cancel o si)
+        (setConn st ci { k1 with o := leave k1.o si }, "done")
+      | none => (st, "bad-op")
+    | none => (st, "bad-op")
+  | ["sg.ogot", g] =>
+    match st.osubs[g.toNat!]? with
+    | some (ci, si) =>
+      match st.conns[ci]? with
+      | some k => match k.o.subs[si]? with
+        | some s => (st, s!"[{" ".intercalate (s.got.map (fun x => toString x.2))}] {if s.leftAt.isSome then "closed" else "open"}")
+        | none => (st, "bad-op")
+      | none => (st, "bad-op")
+    | none => (st, "bad-op")
   | ["sg.call", k] =>
     match st.conns[k.toNat!]? with
     | some c => (setConn st k.toNat! { c with c := drain (noise c.c) }, "ok")
